@@ -21,6 +21,7 @@ inductive Panic where
   | sliceBounds       -- slice bounds out of range
   | indexRange        -- index out of range
   | outsideReceived   -- no Go panic, but bytes outside the read area (not yet received) would be interpreted
+  | allocRange        -- `make`/`append` asked for more than MaxInt64 bytes (Go panics: len out of range)
   | env               -- not a failure of the code: the capacity reported by the runtime is not one `append` can produce
   deriving Repr, DecidableEq
 
@@ -53,7 +54,8 @@ runtime's choice: anything that holds `cap + need = wi + n` bytes. -/
 def Reserve (b : Buf) (n : Int) (cap' : Int) : M Buf :=
   let existing := b.cap - b.wi
   if n > existing then
-    if ¬ (b.wi + n ≤ cap' ∧ cap' ≤ Go.I64MAX) then throw .env
+    if b.wi + n > Go.I64MAX then throw .allocRange
+    else if ¬ (b.wi + n ≤ cap' ∧ cap' ≤ Go.I64MAX) then throw .env
     -- b.data = b.data[:cap(b.data)]; b.data = append(b.data, make([]byte, need)...); b.data = b.data[:b.wi]
     else if 0 ≤ b.wi ∧ b.wi ≤ cap' then pure { b with cap := cap' } else throw .sliceBounds
   else
